@@ -6,6 +6,8 @@ package main
 
 import (
 	"fmt"
+	"math"
+	"os"
 	"strings"
 
 	"github.com/richardwilkes/toolbox/eval"
@@ -64,6 +66,9 @@ func prec(n *node) int {
 }
 
 func genLit(r *hx.Rand) string {
+	if r.Chance(1, 8) { // negative-exponent literal: the '-' after <digit>e is part of the literal, wherever it stands
+		return []string{"1e-2", "5e-1", "12e-1", "2.5e-3", "7e-10"}[r.Intn(5)]
+	}
 	switch r.Intn(3) {
 	case 0:
 		return fmt.Sprint(r.Intn(100))
@@ -153,6 +158,23 @@ func (n *node) tree(printed func(*node) string) string {
 
 var junkAlpha = []byte("12ab()+-*/^!=<>|&e ,f%$.")
 
+// expressions rejected while operators and operands are pending, and junk: run first on the evaluator that is then reused
+var badPre = []string{"1-g(2)", "2*(3- - -1)", "1+2*(3-zz(4", "a*(b+!!c)", "((1+", "1-2-3-q(", "-(-(-g()))", "2^3^x(1)"}
+
+func pre(r *hx.Rand) string {
+	if !r.Chance(1, 3) {
+		return ""
+	}
+	if r.Bool() {
+		return " " + hx.Hex(badPre[r.Intn(len(badPre))])
+	}
+	b := make([]byte, r.Range(1, 10))
+	for j := range b {
+		b[j] = junkAlpha[r.Intn(len(junkAlpha)-3)]
+	}
+	return " " + hx.Hex(string(b))
+}
+
 func gen(r *hx.Rand, n int) []string {
 	var out []string
 	for i := 0; i < n; i++ {
@@ -166,9 +188,9 @@ func gen(r *hx.Rand, n int) []string {
 			_ = lr2
 			exp := expectedTree(a, text)
 			if exp == "" {
-				out = append(out, "sym "+hx.Hex(text)+" -")
+				out = append(out, "sym "+hx.Hex(text)+" -"+pre(r))
 			} else {
-				out = append(out, "sym "+hx.Hex(text)+" "+hx.Hex(exp))
+				out = append(out, "sym "+hx.Hex(text)+" "+hx.Hex(exp)+pre(r))
 			}
 		case i%10 < 7: // arbitrary strings, symbolic
 			ln := r.Intn(14)
@@ -176,7 +198,7 @@ func gen(r *hx.Rand, n int) []string {
 			for j := range b {
 				b[j] = junkAlpha[r.Intn(len(junkAlpha)-3)]
 			}
-			out = append(out, "sym "+hx.Hex(string(b))+" -")
+			out = append(out, "sym "+hx.Hex(string(b))+" -"+pre(r))
 		case i%10 < 9: // value level
 			out = append(out, fmt.Sprintf("val %d %d", r.Intn(1<<30), r.Range(1, 4)))
 		default: // robustness of the real evaluators
@@ -208,6 +230,63 @@ func expectedTree(a *node, _ string) string {
 	})
 }
 
+// refCall is the meaning of abs/max/min on the two value types (a boolean argument counts as 1 or 0, as the library's
+// argument coercion has it), written here and not taken from the library's function table
+func refCall(name string, vs []any) (any, error) {
+	isFixed := false
+	nums := make([]float64, len(vs))
+	fx := make([]f64.Int[fixed.D4], len(vs))
+	for i, v := range vs {
+		switch t := v.(type) {
+		case f64.Int[fixed.D4]:
+			isFixed = true
+			fx[i] = t
+		case float64:
+			nums[i] = t
+		case bool:
+			if t {
+				nums[i] = 1
+				fx[i] = f64.From[fixed.D4](1)
+			}
+		default:
+			return nil, fmt.Errorf("not a number")
+		}
+	}
+	for _, v := range vs { // booleans among fixed-point values
+		if _, ok := v.(bool); ok && refFixedMode {
+			isFixed = true
+		}
+	}
+	if isFixed || refFixedMode {
+		r := fx[0]
+		switch name {
+		case "abs":
+			if r < 0 {
+				r = -r
+			}
+		case "max":
+			if fx[1] > r {
+				r = fx[1]
+			}
+		case "min":
+			if fx[1] < r {
+				r = fx[1]
+			}
+		}
+		return r, nil
+	}
+	switch name {
+	case "abs":
+		return math.Abs(nums[0]), nil
+	case "max":
+		return math.Max(nums[0], nums[1]), nil
+	default:
+		return math.Min(nums[0], nums[1]), nil
+	}
+}
+
+var refFixedMode bool
+
 // ---- value level: AST over numeric literals evaluated by the library operators
 func refEval(a *node, ops map[string]*eval.Operator, lit func(string) (any, error)) (any, error) {
 	switch a.kind {
@@ -227,6 +306,16 @@ func refEval(a *node, ops map[string]*eval.Operator, lit func(string) (any, erro
 		return ops[a.un].EvaluateUnary(v)
 	case 5:
 		return refEval(a.l, ops, lit)
+	case 4:
+		vs := make([]any, len(a.args))
+		for i, x := range a.args {
+			v, err := refEval(x, ops, lit)
+			if err != nil {
+				return nil, err
+			}
+			vs[i] = v
+		}
+		return refCall(a.name, vs)
 	case 2:
 		l, err := refEval(a.l, ops, lit)
 		if err != nil {
@@ -250,16 +339,24 @@ func genNumAST(r *hx.Rand, depth int) *node {
 		if r.Chance(1, 8) {
 			t = "0"
 		}
+		if r.Chance(1, 8) {
+			t = []string{"1e-2", "5e-1", "12e-1", "25e-1", "2.5e-1"}[r.Intn(5)]
+		}
 		if r.Chance(1, 5) {
 			return &node{kind: 1, text: t, un: unOps[r.Intn(2)]}
 		}
 		return &node{kind: 0, text: t}
 	}
-	switch r.Intn(8) {
+	switch r.Intn(9) {
 	case 0:
 		return &node{kind: 3, un: unOps[r.Intn(2)], l: genNumAST(r, depth-1)}
 	case 1:
 		return &node{kind: 5, l: genNumAST(r, depth-1)}
+	case 2: // a call: its argument text is parsed again from its own first byte
+		if r.Bool() {
+			return &node{kind: 4, name: "abs", args: []*node{genNumAST(r, depth-2)}}
+		}
+		return &node{kind: 4, name: []string{"max", "min"}[r.Intn(2)], args: []*node{genNumAST(r, depth-2), genNumAST(r, depth-2)}}
 	default:
 		o := binOps[r.Intn(len(binOps))]
 		if o.sym == "^" && r.Chance(2, 3) {
@@ -302,6 +399,7 @@ func valCase(seed, depth int) string {
 		for _, o := range fe.Operators {
 			ops[o.Symbol] = o
 		}
+		refFixedMode = true
 		want, werr := refEval(a, ops, func(s string) (any, error) { return f64.FromString[fixed.D4](s) })
 		got1, e1 := fe.Evaluate(compact)
 		got2, e2 := fe.Evaluate(spaced) // reused evaluator, other layout
@@ -312,6 +410,9 @@ func valCase(seed, depth int) string {
 		if ok && werr == nil {
 			ok = canonFixed(want) == canonFixed(got1) && canonFixed(got1) == canonFixed(got2) && canonFixed(got2) == canonFixed(got3) && canonFixed(got3) == canonFixed(got4)
 		}
+		if !ok && os.Getenv("VERIF_DEBUG") != "" {
+			fmt.Fprintf(os.Stderr, "fixed dz=%v %q: want %v (%v); got %v (%v) | %v (%v) | %v (%v) | %v (%v)\n", dz, compact, want, werr, got1, e1, got2, e2, got3, e3, got4, e4)
+		}
 		flags = append(flags, "fx"+hx.B2i(dz)+"="+hx.B2i(ok))
 		// floating point
 		fl := eval.NewFloatEvaluator[float64](nil, dz)
@@ -319,6 +420,7 @@ func valCase(seed, depth int) string {
 		for _, o := range fl.Operators {
 			fops[o.Symbol] = o
 		}
+		refFixedMode = false
 		fwant, fwerr := refEval(a, fops, func(s string) (any, error) {
 			var f float64
 			_, err := fmt.Sscan(s, &f)
@@ -345,6 +447,12 @@ func run(c string) (obs string) {
 	switch f[0] {
 	case "sym":
 		ev := symbolic()
+		if len(f) > 3 { // an earlier evaluation on the same evaluator, whatever its outcome, must not influence this one
+			func() {
+				defer func() { _ = recover() }()
+				_, _ = ev.Evaluate(hx.UnHex(f[3]))
+			}()
+		}
 		v, err := ev.Evaluate(hx.UnHex(f[1]))
 		if err != nil {
 			return "E"
